@@ -731,7 +731,6 @@ func mat6(c *Ctx) {
 			// an excluded option only steps itself aside: the loop over the group's options is not left
 			// early (other than by returning a match)
 			if sl, h, isR := rangeElemHeader(mu.Key); isR && h != nil {
-				_ = sl
 				okB, _ := noBreak(h)
 				c.Check(okB, Q(fn)+":every-option-offered", mu.Pos(), "every option of the group is offered the arguments; an excluded one is passed over alone",
 					"the loop over the group's options can stop early: an excluded (env-backed) option would keep the options behind it from being matched")
@@ -741,6 +740,10 @@ func mat6(c *Ctx) {
 				cut := map[ir.Edge]bool{}
 				if ex != nil {
 					cut[ir.Edge{From: h, To: ex}] = true
+				}
+				// an empty group has been offered to in full
+				for _, e := range lenOnlyZeroEdgesLike(fn, sl) {
+					cut[e] = true
 				}
 				for _, p := range fn.Params {
 					if isStringSlice(p.Type()) {
